@@ -216,6 +216,7 @@ func Schema(t *T, o SchemaOpts) *model.Schema {
 		}
 	}
 	if o.ExtraObjects && len(ifaces) > 0 {
+		var extras []string
 		for i, n := 0, intn(t, 0, 2, "nExtra"); i < n; i++ {
 			td := &model.TypeDef{Kind: model.KObject, Name: fmt.Sprintf("X%d", i), Desc: desc(t, o, "extra"), HasIsTypeOf: true}
 			in := pick(t, ifaces, "extraIface")
@@ -226,6 +227,12 @@ func Schema(t *T, o SchemaOpts) *model.Schema {
 			}
 			td.Fields = append(td.Fields, &model.FieldDef{Name: "xa", Type: model.T("Int")})
 			s.Types = append(s.Types, td)
+			extras = append(extras, td.Name)
+		}
+		// a union nothing refers to whose members are the extra objects: appending it brings
+		// them into the schema transitively
+		if len(extras) > 0 && chance(t, 50, "extraUnion") {
+			s.Types = append(s.Types, &model.TypeDef{Kind: model.KUnion, Name: "XU", Desc: desc(t, o, "extraUnion"), Members: append([]string{}, extras...)})
 		}
 	}
 	root := &model.TypeDef{Kind: model.KObject, Name: "Q", Desc: desc(t, o, "query")}
@@ -329,6 +336,12 @@ func RuntimeValue(t *T, s *model.Schema, ty model.TypeRef, depth int, asDefault 
 		return RuntimeValue(t, s, ty.Inner(), depth, asDefault)
 	}
 	if ty.IsList() {
+		if !asDefault && chance(t, 12, "listOfOneValue") {
+			// a single value where a list is expected (input coercion wraps it)
+			if in := RuntimeValue(t, s, ty.Inner(), depth-1, asDefault); in.K != "null" {
+				return in
+			}
+		}
 		n := intn(t, 0, 2, "listLen")
 		if depth <= 0 {
 			n = 0
